@@ -380,3 +380,4 @@ for _p in ("C01", "C02"):
 H("C12", "html/layout", "VxH_C02_nested_padding", mode="real", reach=["laid-out", "split"], bounds="a block, then a section with three child blocks and a symbolic bottom padding in [0,40] and optional bottom border in [1,20], then a block; heights in [10,60] on 100px pages", quick={"maxsteps": 100000000, "time": "600s", "shards": 8})
 H("C13", "html/layout", "VxH_C13_auto_span_min", mode="real", reach=["laid-out"], bounds="auto layout in a container of symbolic width [20,300]: a colspan-2 cell with symbolic horizontal padding [0,80] over two cells of symbolic width [0,200]", quick={"maxsteps": 150000000, "shards": 4})
 H("C14", "utils", "VxH_C14_metadata", reach=["extracted", "not-a-standard-name"], bounds="<meta name> among 11 spellings (ASCII case variants, U+212A / U+0130 / U+017F look-alikes, other names) x 2 contents")
+H("C19", "html/boxes", "VxH_C19_descriptors_from_css", reach=["built"], bounds="@counter-style (numeric over ten letters) with negative: prefix suffix / prefix only, range: infinite 5 / 0 infinite; counter value in {-12, -2, 3, 7}", quick={"maxsteps": 100000000})
